@@ -54,7 +54,7 @@ def variants(rng: random.Random, top: Path, root: str, k: int):
                                 "shuffle": shuffle, "repo_src": str(REPO / "src")}, o_spelling if os.path.isabs(o_spelling)
                     else str((Path(cwd) / o_spelling))))
     v("reference", 0, top, str(src), str(top / "out0"), None)
-    kinds = ["hash", "shuffle", "relative", "slash", "repeat", "cwd"]
+    kinds = ["hash", "shuffle", "relative", "slash", "repeat", "cwd", "dot"]
     rng.shuffle(kinds)
     for i, kind in enumerate((kinds * 3)[:k], start=1):
         o = top / f"out{i}"
@@ -70,6 +70,8 @@ def variants(rng: random.Random, top: Path, root: str, k: int):
             v("trailing slashes and a '.' component", hs, top, f"{top}/./src/{root}/", f"{o}/", None)
         elif kind == "repeat":
             v("repeated run, same hash seed as the reference", 0, top, str(src), str(o), None)
+        elif kind == "dot":
+            v("run from inside the source directory, '-s .'", hs, src, ".", str(o), None)
         else:
             v("working directory /", hs, "/", str(src), str(o), rng.randrange(1 << 30))
     return out, base_opts
